@@ -143,13 +143,9 @@ func shapeOf(e parser.Expr) string {
 		case *parser.NumberLiteral:
 			if x.Duration {
 				a := math.Abs(x.Val)
-				if int64(math.Round(a*1e9))/1000000 != int64(math.Round(a*1000)) {
-					if a*1e9 >= 1<<53 {
-						// float64 seconds cannot hold millisecond precision beyond 2^53 ns
-						set("durlit-float-seconds-precision")
-					} else {
-						set("durlit-float-trunc") // fixed by 08a939fd28: must not occur any more
-					}
+				// fixed by 08a939fd28 + 346b90dbb7 (the printer rounds to milliseconds): must not occur
+				if int64(time.Duration(math.Round(a*1e3))*time.Millisecond) != int64(math.Round(a*1000))*1000000 {
+					set("durlit-float-trunc")
 				}
 			}
 		}
@@ -371,7 +367,7 @@ func main() {
 		`sum by ("without") (foo)`, `sum by ("nan") (foo)`, `a + on("inf") b`, `a * on(b) group_left("Without") c`,
 		`foo offset 0.0001`, `foo[1.0000001]`, `foo[5m:1.0004]`, `foo offset -0.0001`, `foo[5m:] offset 1.0000001`,
 		`1s1ms`, `-1s3ms`, `foo > 1s5ms`, // fixed (08a939fd28): regression cases
-		`34546d21h26m45s22ms`, `foo * -34546d21h26m45s22ms`,
+		`34546d21h26m45s22ms`, `foo * -34546d21h26m45s22ms`, `200d3ms`, // fixed (346b90dbb7): regression cases
 		`foo @ 9007199254740.993`, `foo @ 4503599627370.4`, `foo[5m:] @ -4503599627370.4`,
 		`a + fill_left(0) fill_right(-0) b`,
 	}
